@@ -28,6 +28,18 @@ CLAIMED = {
              'of the recursion decorator on normal and exceptional exit.',
         note='Wall-clock behaviour of whole queries and polynomial scaling are not decided; limits are read from '
              'jedi.inference.recursion at run time; funcdefs are abstract identities.'),
+    'C02': dict(
+        text='Bounded symbolic model checking of the tuple-assignment projection (TreeNameDefinition.assignment_indexes + '
+             'syntax_tree.check_tuple_assignments over stand-in target trees, nesting and stars, right-hand length '
+             'symbolic) against Python\'s unpacking semantics.',
+        note='Only this kernel of the evaluator is decided; the abstract interpreter as a whole (calls, classes, '
+             'instances, generators, narrowing ...) is NOT. One recorded known finding (targets after a star).'),
+    'C03': dict(
+        text='Bounded symbolic model checking of the two selection kernels of name resolution: ParserTreeFilter._filter/'
+             '_check_flows (latest reachable definition of the scope before the use wins; symbolic positions, scope bits '
+             'and reachability verdicts) and context.get_global_filters (scope order and where the position limit stops).',
+        note='Thin: goto dispatch, class-body skipping, global/nonlocal merging and the flow analysis itself are NOT '
+             'decided (reachability and parent-scope lookup are symbolic stubs).'),
     'C04': dict(
         text='Bounded symbolic model checking of the completion algebra: helpers.match/_fuzzy_match against prefix / '
              'subsequence references; completion.filter_names + classes.Completion (complete, name_with_symbols, '
@@ -37,6 +49,20 @@ CLAIMED = {
         note='Attribute completeness against live objects is NOT decided (needs the evaluator). Identifiers are over '
              'the alphabet {a,A,b,_,U+0130}, |fragment|<=2(3), |name|<=3(4), <=2(3) candidates; candidate names are '
              'stubs; add_bracket_after_function=False.'),
+    'C05': dict(
+        text='Bounded symbolic model checking of rename(): the node->text map and parso\'s RefactoringNormalizer are '
+             'executed over a flat token list with symbolic prefixes/values and a symbolic subset of reported tokens: '
+             'exactly those tokens are rewritten, every other byte kept, renaming back restores the text; module/package '
+             'renames announce exactly dir/new+suffix resp. dir.parent/new.',
+        note='That get_references reports the right set (goto closure, partition) and that the renamed program behaves '
+             'the same are NOT decided.'),
+    'C06': dict(
+        text='Decision kernels of inline and extract over symbolic node types / positions: inline parenthesises the '
+             'right-hand side whenever Python\'s binding strengths require it (node types symbolic, reference table '
+             'from the grammar), refuses everything but a plain single assignment with RefactoringError, and '
+             'extract_function returns exactly the selection variables read afterwards.',
+        note='compile/exec equivalence of whole programs, selection normalisation of extract_variable and the '
+             'extract->inline round trip are NOT decided; nodes and names are stand-ins.'),
     'C07': dict(
         text='Bounded symbolic model checking of Refactoring.get_changed_files (which files move under a rename: '
              'exactly the renamed path and the paths below it, for every way a path text can relate to the renamed '
@@ -116,5 +142,3 @@ NOT_APPLICABLE = {
            'and file-system timestamp granularity; jedi itself contributes no arithmetic/string/state-machine logic '
            'that can be encoded - a stub-everything model would verify the stub (DESIGN.md §5).',
 }
-for _p in ('C02', 'C03', 'C05', 'C06'):
-    NOT_APPLICABLE[_p] = _PENDING
